@@ -41,7 +41,7 @@ import (
 // operation codes (shared with Corr/C08.v and lib/props/c08.py)
 const (
 	opConnect   = 0  // n c
-	opAuthOK    = 1  // n c x
+	opAuthOK    = 1  // n c x shape   (shape of the handshake request, see handshakePayload)
 	opAuthFail  = 2  // n c
 	opKick      = 3  // n x c
 	opHeartbeat = 4  // n c
@@ -248,7 +248,7 @@ func (w *world) apply(o []int, tr map[[2]int]*transport) bool {
 	case opAuthOK, opAuthFail:
 		c, x := arg(o, 2), arg(o, 3)
 		w.auth[n].ok, w.auth[n].x = code == opAuthOK, int64(x)
-		payload, _ := json.Marshal(&packet.HandshakeRequest{ClientID: int64(x), Version: "V3", Protocol: "tcp", ConnectionType: "control"})
+		payload := handshakePayload(int64(x), arg(o, 4))
 		err := w.sms[n].HandlePacket(&types.StreamPacket{ConnectionID: connName(c), Timestamp: time.Now(),
 			Packet: &packet.TransferPacket{PacketType: packet.Handshake, Payload: payload}})
 		return err != nil
@@ -278,6 +278,73 @@ func (w *world) apply(o []int, tr map[[2]int]*transport) bool {
 	}
 	return true
 }
+
+// the handshake request shapes the server may meet (wire JSON; optional fields present or omitted):
+//   shape%4: connection_type = "control" | omitted | "tunnel" | "CONTROL" (any other spelling)
+//   +4: version omitted   +8: protocol omitted   +16: empty payload (no JSON at all)
+const nShapes = 32
+
+func handshakePayload(x int64, shape int) []byte {
+	if shape&16 != 0 {
+		return nil
+	}
+	m := map[string]interface{}{"client_id": x}
+	switch shape % 4 {
+	case 0:
+		m["connection_type"] = "control"
+	case 2:
+		m["connection_type"] = "tunnel"
+	case 3:
+		m["connection_type"] = "CONTROL"
+	}
+	if shape&4 == 0 {
+		m["version"] = "V3"
+	}
+	if shape&8 == 0 {
+		m["protocol"] = "tcp"
+	}
+	b, err := json.Marshal(m)
+	must(err)
+	return b
+}
+
+type shapeProbe struct {
+	control  bool   // the accepted connection ends up as the client's control connection in the registry
+	record   bool   // a conn_state record exists afterwards
+	connType string // its ConnType
+	indexed  bool   // FindClientNode finds the client
+}
+
+// what handleHandshake does with each request shape, observed on a fresh connection of a fresh node (no clock)
+func probeShape(shape int) shapeProbe {
+	w := newWorld("redis", 1, time.Hour, true)
+	defer w.close()
+	tr := map[[2]int]*transport{}
+	w.apply([]int{opConnect, 1, 1}, tr)
+	w.apply([]int{opAuthOK, 1, 1, 7, shape}, tr)
+	var p shapeProbe
+	if cc := w.sms[1].GetControlConnectionByClientID(7); cc != nil && cc.ConnID == connName(1) {
+		p.control = true
+	}
+	if st, err := w.cs[1].GetConnectionState(w.ctx, connName(1)); err == nil && st != nil {
+		p.record, p.connType = true, st.ConnType
+	}
+	if a, _ := w.lookup(1, 7); a[0] == 1 && a[2] == 1 {
+		p.indexed = true
+	}
+	return p
+}
+
+// for which ConnType strings does the store build the client index?
+func storeIndexes(ct string) bool {
+	w := newWorld("redis", 1, time.Hour, false)
+	defer w.close()
+	_ = w.cs[1].RegisterConnection(w.ctx, &connstate.Info{ConnectionID: connName(1), ClientID: 7, Protocol: "tcp", ConnType: ct})
+	a, _ := w.lookup(1, 7)
+	return a[0] == 1
+}
+
+var shapeIsControl [nShapes]bool
 
 func (w *world) lookup(m int, x int) ([3]int, string) {
 	node, conn, err := w.cs[m].FindClientNode(w.ctx, int64(x))
@@ -358,6 +425,9 @@ func (g *ghost) step(o []int, errFlag bool, now int) {
 		c, x := arg(o, 2), arg(o, 3)
 		if errFlag || x <= 0 {
 			return
+		}
+		if sh := arg(o, 4); sh < 0 || sh >= nShapes || !shapeIsControl[sh] {
+			return // the server takes this request for a tunnel-type handshake: no control login, nothing to be indexed
 		}
 		// an older registered connection of x on this node is replaced (removed from the registry, its stream closed)
 		for k, y := range g.reg {
@@ -727,6 +797,20 @@ func gen() {
 	fmt.Printf("Definition client_key_prefix : list N := %s.\n", nlistOf(clientKey))
 	fmt.Printf("Definition hybrid_shares_conn_state : bool := %v.\n", hybridShares(s.VerifConnKey("c1")))
 	fmt.Printf("Definition hybrid_shares_client_conn : bool := %v.\n", hybridShares(s.VerifClientKey(7)))
+	// handleHandshake's own classification of every request shape, and what it registers in the store for it
+	rows := []string{}
+	for k := 0; k < nShapes; k++ {
+		p := probeShape(k)
+		rows = append(rows, fmt.Sprintf(" (%v, %v, %s, %v)", p.control, p.record, nlistOf(p.connType), p.indexed))
+	}
+	fmt.Printf("(* per handshake request shape: (accepted as control connection, conn_state record written, its ConnType, client indexed) *)\n")
+	fmt.Printf("Definition handshake_shapes : list (bool * bool * list N * bool) := [\n%s\n].\n", strings.Join(rows, ";\n"))
+	cts := []string{}
+	for _, ct := range []string{"control", "", "tunnel", "CONTROL"} {
+		cts = append(cts, fmt.Sprintf("(%s, %v)", nlistOf(ct), storeIndexes(ct)))
+	}
+	fmt.Printf("(* RegisterConnection builds the client index for these ConnType strings *)\n")
+	fmt.Printf("Definition store_indexes_conntype : list (list N * bool) := [%s].\n", strings.Join(cts, "; "))
 }
 
 func main() {
@@ -736,6 +820,9 @@ func main() {
 		return
 	}
 	variant = probeVariant()
+	for k := 0; k < nShapes; k++ {
+		shapeIsControl[k] = probeShape(k).control
+	}
 	if len(os.Args) > 1 && os.Args[1] == "probe" {
 		fmt.Println(variant)
 		return
